@@ -3,7 +3,9 @@ package main
 // C13 — responseWriter against a spy http.ResponseWriter.
 
 import (
+	"net/http/httptest"
 	"fmt"
+	"io"
 	"math/rand"
 	"net/http"
 	"strings"
@@ -33,9 +35,26 @@ func (s *spyWriter) Write(b []byte) (int, error) {
 }
 func (s *spyWriter) Flush() { s.events = append(s.events, "flush") }
 
+// like net/http's own response the client's writer offers io.ReaderFrom (everything still arrives through Write)
+func (s *spyWriter) ReadFrom(r io.Reader) (int64, error) {
+	b, _ := io.ReadAll(r)
+	n, err := s.Write(b)
+	return int64(n), err
+}
+
+type zeroReader struct{}
+
+func (zeroReader) Read(p []byte) (int, error) {
+	for i := range p {
+		p[i] = 0
+	}
+	return len(p), nil
+}
+
 func init() {
 	execs["writer"] = execWriter
 	execs["writer2"] = execWriter2
+	execs["writerf"] = execWriterFlame
 	gens["C13"] = genWriter
 }
 
@@ -85,7 +104,12 @@ func execWriter2(args []string, lines [][]string) []string {
 			switch {
 			case len(op) == 2 && op[0] == "wh":
 				w.WriteHeader(atoi(op[1]))
-			case len(op) == 3 && (op[0] == "w" || op[0] == "we"):
+			case len(op) == 3 && op[0] == "wc" && atoi(op[1]) > 0:
+				spy.fail = false
+				spy.fwd = atoi(op[2])
+				n, _ := io.Copy(w, io.LimitReader(zeroReader{}, int64(atoi(op[1]))))
+				obs = int(n)
+			case len(op) == 3 && (op[0] == "w" || op[0] == "we" || op[0] == "wc"):
 				spy.fail = op[0] == "we"
 				spy.fwd = atoi(op[2])
 				n, _ := w.Write(make([]byte, atoi(op[1])))
@@ -152,7 +176,13 @@ func execWriter(args []string, lines [][]string) []string {
 			switch {
 			case len(l) == 3 && l[1] == "wh":
 				w.WriteHeader(atoi(l[2]))
-			case len(l) == 4 && (l[1] == "w" || l[1] == "we"):
+			case len(l) == 4 && l[1] == "wc" && atoi(l[2]) > 0:
+				// the same bytes through io.Copy from a source without WriteTo (what io.CopyN / http.ServeContent do)
+				spy.fail = false
+				spy.fwd = atoi(l[3])
+				n, _ := io.Copy(w, io.LimitReader(zeroReader{}, int64(atoi(l[2]))))
+				obs = int(n)
+			case len(l) == 4 && (l[1] == "w" || l[1] == "we" || l[1] == "wc"):
 				// "we": the underlying writer forwards `fwd` bytes AND returns an error
 				spy.fail = l[1] == "we"
 				spy.fwd = atoi(l[3])
@@ -185,6 +215,84 @@ func execWriter(args []string, lines [][]string) []string {
 	return outs
 }
 
+// execWriterFlame: the response writer a handler is GIVEN (c.ResponseWriter() of a real Flame), one request per line.
+//	NEW writerf <method>
+//	RQ <op> <op> …        op = wh:<code> | w:<len>:<fwd> | fl | bf:<id> | st | sz | wr
+// Every request starts from a writer on which nothing has happened: whatever an earlier request of the same
+// instance did to ITS writer (hooks registered and never fired, a status, a size) is not there.
+// out: the observation of every op (as in `writer` sessions) joined by ';', then the client's trace.
+func execWriterFlame(args []string, lines [][]string) []string {
+	method := "GET"
+	if len(args) > 0 {
+		method = args[0]
+	}
+	var ops []string
+	var spy *spyWriter
+	var res []string
+	f := flamego.NewWithLogger(io.Discard)
+	f.Any("/", func(c flamego.Context) {
+		w := c.ResponseWriter()
+		for _, op := range ops {
+			p := strings.Split(op, ":")
+			obs := 0
+			switch {
+			case p[0] == "wh" && len(p) == 2:
+				w.WriteHeader(atoi(p[1]))
+			case p[0] == "w" && len(p) == 3:
+				spy.fwd = atoi(p[2])
+				n, _ := w.Write(make([]byte, atoi(p[1])))
+				obs = n
+			case p[0] == "fl":
+				w.Flush()
+			case p[0] == "bf" && len(p) == 2:
+				id := p[1]
+				w.Before(func(rw flamego.ResponseWriter) {
+					spy.events = append(spy.events, fmt.Sprintf("hook%s:%d", id, rw.Status()))
+				})
+			case p[0] == "st":
+				obs = w.Status()
+			case p[0] == "sz":
+				obs = w.Size()
+			case p[0] == "wr":
+				if w.Written() {
+					obs = 1
+				}
+			default:
+				res = append(res, "bad")
+				continue
+			}
+			wr := 0
+			if w.Written() {
+				wr = 1
+			}
+			res = append(res, fmt.Sprintf("%d %d %d %d", obs, w.Status(), w.Size(), wr))
+		}
+	})
+	outs := []string{"new"}
+	for _, l := range lines {
+		if len(l) < 1 || l[0] != "RQ" {
+			outs = append(outs, "bad-op")
+			continue
+		}
+		ops, res = l[1:], nil
+		spy = &spyWriter{hdr: http.Header{}}
+		func() {
+			defer func() {
+				if r := recover(); r != nil {
+					res = append(res, "panic")
+				}
+			}()
+			f.ServeHTTP(spy, httptest.NewRequest(method, "/", nil))
+		}()
+		tr := "none"
+		if len(spy.events) > 0 {
+			tr = strings.Join(spy.events, ",")
+		}
+		outs = append(outs, strings.Join(res, ";")+" | "+tr)
+	}
+	return outs
+}
+
 var writerCodes = []int{100, 200, 201, 204, 301, 404, 500, 999}
 
 func writerOp(r *rand.Rand, hook *int) string {
@@ -199,6 +307,9 @@ func writerOp(r *rand.Rand, hook *int) string {
 		}
 		if r.Intn(5) == 0 {
 			return fmt.Sprintf("W we %d %d", n, f)
+		}
+		if r.Intn(4) == 0 {
+			return fmt.Sprintf("W wc %d %d", n, n)
 		}
 		return fmt.Sprintf("W w %d %d", n, f)
 	case k < 11:
@@ -217,7 +328,7 @@ func writerOp(r *rand.Rand, hook *int) string {
 
 func genWriter(r *rand.Rand, tier string, emit Emit) {
 	// exhaustive small scope first, then random longer sequences
-	alphabet := []string{"W wh 201", "W wh 404", "W w 3 3", "W w 3 1", "W we 3 2", "W w 0 0", "W fl", "W bf %d", "W st", "W wr"}
+	alphabet := []string{"W wh 201", "W wh 404", "W w 3 3", "W w 3 1", "W we 3 2", "W w 0 0", "W fl", "W bf %d", "W st", "W wr", "W wc 3 3"}
 	depth, random := 3, 3000
 	if tier == "thorough" {
 		depth, random = 5, 100000
@@ -253,6 +364,34 @@ func genWriter(r *rand.Rand, tier string, emit Emit) {
 			emit("%s", writerOp(r, &h))
 		}
 		emit("END")
+	}
+	// the writer a handler is given by a real Flame: several requests on one instance, each must start afresh
+	tok := func(op string) string {
+		f := strings.Fields(op)[1:]
+		return strings.Join(f, ":")
+	}
+	for i := 0; i < random/4; i++ {
+		emit("NEW writerf %s", []string{"GET", "HEAD", "POST"}[r.Intn(3)])
+		for q := 2 + r.Intn(4); q > 0; q-- {
+			h := 0
+			var toks []string
+			switch r.Intn(4) {
+			case 0: // registers hooks (and reads), never commits: the hooks must die with the request
+				for k := 1 + r.Intn(3); k > 0; k-- {
+					h++
+					toks = append(toks, fmt.Sprintf("bf:%d", 10*q+h), []string{"st", "sz", "wr"}[r.Intn(3)])
+				}
+			default:
+				for k := r.Intn(6); k > 0; k-- {
+					op := writerOp(r, &h)
+					if strings.HasPrefix(op, "W we") || strings.HasPrefix(op, "W wc") {
+						op = "W fl"
+					}
+					toks = append(toks, tok(op))
+				}
+			}
+			emit("RQ %s", strings.Join(toks, " "))
+		}
 	}
 	// stacks of two writers: every sequence of up to 2 (thorough: 3) operations over both levels and all four method
 	// pairs, then random longer sessions
